@@ -174,7 +174,7 @@ func (fx *Fixture) setup() error {
 		}
 		fx.PK, fx.VK = pk, vk
 	case bePlonk:
-		srs, srsL, err := unsafekzg.NewSRS(fx.CCS)
+		srs, srsL, err := unsafekzg.NewSRS(fx.CCS, unsafekzg.WithToxicSeed([]byte("verif-fixed-srs")))
 		if err != nil {
 			return err
 		}
